@@ -103,6 +103,20 @@ func c05G1Cases(r *rand.Rand, nFlipEnc int) []bcase {
 			cs = append(cs, bcase{flipBit(v, i), "bitflip"})
 		}
 	}
+	// points with a tiny x coordinate (first bytes all zero): every flag combination over them
+	for x, found := int64(0), 0; x < 200 && found < 8; x++ {
+		b := big.NewInt(x).FillBytes(make([]byte, 48))
+		b[0] |= 0x80
+		if _, cls := ref.DecodeG1(b); cls != ref.DecOK {
+			continue
+		}
+		found++
+		for f := 0; f < 8; f++ {
+			c := append([]byte{}, b...)
+			c[0] = c[0]&0x1F | byte(f<<5)
+			cs = append(cs, bcase{c, "small-x-flags"})
+		}
+	}
 	for i := 0; i < 300; i++ {
 		b := mon.RandBytes(r, 48)
 		if i%3 != 0 {
@@ -177,6 +191,22 @@ func c05G2Cases(r *rand.Rand, cv ref.Conv, nFlipEnc int) []bcase {
 		cs = append(cs, bcase{v, "valid"})
 		for i := 0; i < 768; i++ {
 			cs = append(cs, bcase{flipBit(v, i), "bitflip"})
+		}
+	}
+	// tiny first coefficient (leading bytes zero): every flag combination
+	for x, found := int64(0), 0; x < 400 && found < 6; x++ {
+		b := make([]byte, 96)
+		big.NewInt(x).FillBytes(b[:48])
+		big.NewInt(x/3+1).FillBytes(b[48:])
+		b[0] |= 0x80
+		if _, cls := ref.DecodeG2(b, cv); cls != ref.DecOK {
+			continue
+		}
+		found++
+		for f := 0; f < 8; f++ {
+			c := append([]byte{}, b...)
+			c[0] = c[0]&0x1F | byte(f<<5)
+			cs = append(cs, bcase{c, "small-x-flags"})
 		}
 	}
 	for i := 0; i < 200; i++ {
@@ -280,6 +310,29 @@ func ecRawCases(r *rand.Rand, c *ref.ECCurve) []bcase {
 		}
 		if tries > 300 {
 			break
+		}
+	}
+	// points with a tiny y (curves with a = 0 and p = 7 mod 9: cube root by one exponentiation):
+	// the non-reduced encoding (x, y+p) fits in 32 bytes
+	if c.C.A.Sign() == 0 && new(big.Int).Mod(p, big.NewInt(9)).Int64() == 7 {
+		e9 := new(big.Int).Add(p, big.NewInt(2))
+		e9.Div(e9, big.NewInt(9))
+		for yv, found := int64(1), 0; yv < 400 && found < 5; yv++ {
+			y := big.NewInt(yv)
+			v := c.Fld.Sub(c.Fld.Mul(y, y), c.C.B)
+			x := c.Fld.Exp(v, e9)
+			if c.Fld.Mul(c.Fld.Mul(x, x), x).Cmp(v) != 0 {
+				continue
+			}
+			q := ref.Pt[*big.Int]{X: x, Y: y}
+			if !c.C.IsOnCurve(q) {
+				continue
+			}
+			found++
+			b := c.EncodeRaw(q)
+			cs = append(cs, bcase{append([]byte{}, b...), "valid-small-y"})
+			new(big.Int).Add(y, p).FillBytes(b[32:])
+			cs = append(cs, bcase{b, "y-plus-p"})
 		}
 	}
 	for e := 0; e < 2; e++ {
@@ -487,11 +540,16 @@ func C05(run *mon.Run) {
 				run.Violate("C05:bls:sig-aggregate:reencode-differs", fmt.Sprintf("aggregate of [%x] = %x", c.b, []byte(out)), rep)
 			}
 		}
-		// (2) stateless reconstruction with (b, helper) at indices 0, 1: 2*P - helper
-		if len(c.b) == 48 || len(c.b) == 0 || len(c.b) == 47 || len(c.b) == 49 {
+		// (2) stateless reconstruction with (b, helper) at indices 0, 1: 2*P - helper; and with b as the
+		// last of the t+1 shares: (helper, b) at indices 1, 0 gives the same value
+		for pos := 0; pos < 2 && (len(c.b) <= 50 || len(c.b) == 96); pos++ {
 			var ts crypto.Signature
 			if !run.Guard("BLSReconstructThresholdSignature", rep, func() {
-				ts, err = crypto.BLSReconstructThresholdSignature(2, 1, []crypto.Signature{c.b, helperEnc}, []int{0, 1})
+				if pos == 0 {
+					ts, err = crypto.BLSReconstructThresholdSignature(2, 1, []crypto.Signature{c.b, helperEnc}, []int{0, 1})
+				} else {
+					ts, err = crypto.BLSReconstructThresholdSignature(2, 1, []crypto.Signature{helperEnc, c.b}, []int{1, 0})
+				}
 			}) {
 				run.Eval(1)
 				run.Shape("bls:sig-reconstruct|" + c.kind + "|" + why)
